@@ -168,6 +168,20 @@ def tryIntoScalar (rs : Rows α) : Option α :=
   | [[x]] => some x
   | _ => none
 
+/-- `row_iter(row)`: the row, a panic when it does not exist -/
+def rowAt (rs : Rows α) (row : Nat) : Outcome (List α) :=
+  match rs[row]? with
+  | some r => .ok r
+  | none => .panic .explicit
+
+/-- `column_iter(column)`: the column top to bottom, a panic when it does not exist -/
+def columnAt (rs : Rows α) (c : Nat) : Outcome (List α) :=
+  if c < ncols rs then .ok (column rs c) else .panic .explicit
+
+/-- `diagonal_iter()`: the cells `(i, i)` -/
+def diagonal (rs : Rows α) : List α :=
+  (List.range (min (nrows rs) (ncols rs))).filterMap fun i => cell rs i i
+
 /-! ### constructors -/
 
 /-- the square list of rows with `values` on the diagonal and `zero` elsewhere -/
